@@ -1,0 +1,70 @@
+//go:build verif
+
+package blake2b
+
+import "golang.org/x/sys/cpu"
+
+// Verification hooks for property C05 (and C06): force each hashBlocks
+// implementation in turn. Compiled only with the "verif" build tag.
+
+// VerifC05Paths lists the hashBlocks implementations this CPU can run, fastest first.
+// "generic" is always present.
+func VerifC05Paths() []string {
+	var p []string
+	if cpu.X86.HasAVX2 {
+		p = append(p, "AVX2")
+	}
+	if cpu.X86.HasAVX {
+		p = append(p, "AVX")
+	}
+	if cpu.X86.HasSSE41 {
+		p = append(p, "SSE4")
+	}
+	return append(p, "generic")
+}
+
+// VerifC05SetPath makes hashBlocks dispatch to the named implementation. It reports
+// false (and changes nothing) if the name is unknown or the CPU lacks the feature.
+// Not safe for use concurrently with hashing.
+func VerifC05SetPath(name string) bool {
+	switch name {
+	case "AVX2":
+		if !cpu.X86.HasAVX2 {
+			return false
+		}
+		useAVX2, useAVX, useSSE4 = true, false, false
+	case "AVX":
+		if !cpu.X86.HasAVX {
+			return false
+		}
+		useAVX2, useAVX, useSSE4 = false, true, false
+	case "SSE4":
+		if !cpu.X86.HasSSE41 {
+			return false
+		}
+		useAVX2, useAVX, useSSE4 = false, false, true
+	case "generic":
+		useAVX2, useAVX, useSSE4 = false, false, false
+	default:
+		return false
+	}
+	return true
+}
+
+// VerifC05RestorePath restores the dispatch flags chosen at start-up from the CPU features.
+func VerifC05RestorePath() {
+	useAVX2, useAVX, useSSE4 = cpu.X86.HasAVX2, cpu.X86.HasAVX, cpu.X86.HasSSE41
+}
+
+// VerifC05CurrentPath names the implementation hashBlocks currently dispatches to.
+func VerifC05CurrentPath() string {
+	switch {
+	case useAVX2:
+		return "AVX2"
+	case useAVX:
+		return "AVX"
+	case useSSE4:
+		return "SSE4"
+	}
+	return "generic"
+}
